@@ -88,6 +88,7 @@ structure DP where
   balance  : Nat
   reward   : Nat
   stakedAt : Nat
+  deleted  : Bool      -- Status == spenum.Deleted (set by `Empty` and, without any refund, by zcnsc `DeleteAuthorizer`)
 deriving DecidableEq, Repr, Inhabited
 
 /-- `stakepool.StakePool` (+ `TotalOffers` of the storagesc wrapper, `0` elsewhere). -/
@@ -128,7 +129,7 @@ structure State where
 inductive Err where
   | noFunction | notFound | wrongKind | crossKind | unauthorized | already | noPool
   | badSlash | coin (e : Coin.Err) | reward (e : StakePool.Err)
-  | lockZero | lockSmall | lockLarge | maxDelegates | noTokens | lowBalance
+  | lockZero | lockSmall | lockLarge | maxDelegates | noTokens | lowBalance | lockDeleted
   | tooEarly | offers | noRewards | exists
 deriving DecidableEq, Repr, Inhabited
 
@@ -139,6 +140,7 @@ def Err.tag : Err → String
   | .reward e => "reward:" ++ e.tag
   | .lockZero => "lock-zero" | .lockSmall => "lock-small" | .lockLarge => "lock-large"
   | .maxDelegates => "max-delegates" | .noTokens => "no-tokens" | .lowBalance => "low-balance"
+  | .lockDeleted => "lock-deleted"
   | .tooEarly => "too-early" | .offers => "offers" | .noRewards => "no-rewards" | .exists => "exists"
 
 def liftC {α} : Except Coin.Err α → Except Err α
@@ -424,8 +426,14 @@ def balanceOf (o : Option DP) : Nat :=
 `validateLockRequest`) and `StakedAt` reset. -/
 def lockedDP (o : Option DP) (v now : Nat) : DP :=
   match o with
-  | none => { balance := v, reward := 0, stakedAt := now }
+  | none => { balance := v, reward := 0, stakedAt := now, deleted := false }
   | some d => { d with balance := d.balance + v, stakedAt := now }
+
+/-- `LockPool` refuses to add to a pool whose status is neither Active nor Pending. -/
+def isDeleted (o : Option DP) : Bool :=
+  match o with
+  | some d => d.deleted
+  | none => false
 
 /-- `StakePoolLock` = `validateLockRequest` + `LockPool` + `Save` + `EmitStakeEvent` + refresh. -/
 def lock (cfg : Cfg) (s : State) (k : Kind) (pid : Id) (t : Txn) : Except Err (State × List Ledger.Transfer) :=
@@ -442,6 +450,7 @@ def lock (cfg : Cfg) (s : State) (k : Kind) (pid : Id) (t : Txn) : Except Err (S
         else if sp.maxDelegates ≤ sp.pools.length ∧ (kvGet sp.pools t.client).isNone then .error .maxDelegates
         else if !Ledger.present s.accts t.client then .error .noTokens
         else if (Ledger.get s.accts t.client).balance < t.value then .error .lowBalance
+        else if isDeleted (kvGet sp.pools t.client) then .error .lockDeleted
         else
           let sp' := { sp with pools := kvSet sp.pools t.client (lockedDP (kvGet sp.pools t.client) t.value t.now) }
           match stakeOf (orderedPools s.order sp'.pools) 0 with
@@ -478,7 +487,20 @@ def mintRewards (sp : SP) (k : Kind) (client : Id) : Option (SP × List Ledger.T
     let e := payDelegate c.1 k client d
     some (e.1, c.2 ++ e.2, wrapAdd d.reward (chargeOf sp client))
 
-/-- `StakePoolUnlock`; `wall` is the `time.Now()` the code reads (seconds). -/
+/-- the state part of `Empty`: `Balance = 0`, `Status = Deleted` (the refund transfer is queued by `unlock`). -/
+def emptyPool (sp : SP) (client : Id) : SP :=
+  match kvGet sp.pools client with
+  | some d => { sp with pools := kvSet sp.pools client { d with balance := 0, deleted := true } }
+  | none => sp
+
+/-- `DeletePool`: the delegate pool is removed when its status is Deleted. -/
+def deletePool (sp : SP) (client : Id) : SP :=
+  match kvGet sp.pools client with
+  | some d => if d.deleted then { sp with pools := kvDel sp.pools client } else sp
+  | none => sp
+
+/-- `StakePoolUnlock`; `wall` is the `time.Now()` the code reads (seconds). `Empty` refunds `dp.Balance` whatever the
+pool's status is (a pool marked Deleted by `DeleteAuthorizer` still holds its stake). -/
 def unlock (cfg : Cfg) (s : State) (k : Kind) (pid : Id) (t : Txn) (wall : Nat) :
     Except Err (State × List Ledger.Transfer) :=
   match loadSP s k pid with
@@ -509,7 +531,7 @@ def unlock (cfg : Cfg) (s : State) (k : Kind) (pid : Id) (t : Txn) (wall : Nat) 
             match guard with
             | .error e => .error e
             | .ok _ =>
-              let sp2 := { sp1 with pools := kvDel sp1.pools t.client }
+              let sp2 := deletePool (emptyPool sp1 t.client) t.client
               match stakeOf (orderedPools s.order sp2.pools) 0 with
               | .error e => .error e
               | .ok _ =>
@@ -526,6 +548,20 @@ def collect (s : State) (k : Kind) (pid : Id) (client : Id) : Except Err (State 
     | none => .error .noRewards
     | some (sp1, trs, _) =>
       .ok (saveSP s k pid sp1, trs)
+
+/-- zcnsc `DeleteAuthorizer` (zcnsc/authorizer.go:259-346): the owner or the authorizer's delegate wallet removes the
+authorizer record; every delegate pool is marked Deleted — nothing is paid back here, the stakers unlock afterwards. -/
+def deleteAuthorizer (cfg : Cfg) (s : State) (r : Req) : Except Err State :=
+  match kvGet s.provs r.reqId with
+  | none => .error .notFound
+  | some p =>
+    if p.kind ≠ .authorizer then .error .wrongKind
+    else match getSP s .authorizer r.reqId with
+      | none => .error .notFound
+      | some sp =>
+        if ¬ (cfg.owner = r.caller ∨ sp.wallet = some r.caller) then .error .unauthorized
+        else .ok (delProv (putSP s .authorizer r.reqId
+          { sp with pools := sp.pools.map fun q => (q.1, { q.2 with deleted := true }) }) r.reqId)
 
 /-- the rewards computed on the ordered pool list, keyed by pool id. -/
 def rewardsById : List (Id × DP) → List StakePool.DP → List (Id × Nat)
@@ -622,6 +658,9 @@ def unlockTxn (cfg : Cfg) (s : State) (k : Kind) (pid : Id) (t : Txn) (wall : Na
 
 def collectTxn (s : State) (k : Kind) (pid client : Id) : State × Status :=
   exec s client (collect s k pid client)
+
+def deleteAuthorizerTxn (cfg : Cfg) (s : State) (r : Req) : State × Status :=
+  exec s r.caller (noTransfers (deleteAuthorizer cfg s r))
 
 /-! ## leaves -/
 
